@@ -237,6 +237,7 @@ func init() {
 		partRaceStorms(c, a)
 		partRealBinaryStorms(c, a)
 		partLockOrder(c, a, []string{"leave", "join", "switch", "delete", "lastleave", "create", "join-vs-lastleave"})
+		partLagSenders(c, a) // relays held up by a slow member while addressees leave: nobody sends on what was torn down
 		return a.finish(c)
 	}
 }
